@@ -1,7 +1,14 @@
 import Model.C05.PsbtMap
 import Model.C05.Misc
 /-
-Typed layer of a PSBT input map (`psbt/psbt_in.py: PsbtIn.parse / serialize`), at record granularity.
+Typed layer of the PSBT maps (`psbt/psbt_in.py`, `psbt_out.py`, `psbt.py`: parse / serialize).
+
+The typed object is modelled the way the code builds it: `fromRecs` is the dispatch loop of `parse`
+(`fields[field] = value` for a whole-value field, `fields[field][k[1:]] = value` for a key-data field,
+`unknown[k] = v` for the rest) and `toRecs` is the loop of `serialize` over the emission table
+(`_SERIALIZED_FIELDS`): skip a field dropped once finalized, skip a falsy value, write one record for a
+whole-value field and `sorted(dict.items())` for a dict.  `Proofs/C05/PsbtTyped.lean` proves that this
+loop equals "sort by (field rank, key) what is left after an explicit drop predicate".
 
 `PsbtIn.parse` reads the map (map layer), then sends every record through the deserializer of its
 field type: whole-value fields (`_WHOLE_VALUE_FIELDS`, the key must be the type byte alone) and
@@ -54,62 +61,122 @@ def valueOkIn (ty : Nat) (v : Bytes) : Bool :=
   else if Gen.Wire.PSBT_IN_MUSIG.contains ty then !v.isEmpty && v.length % 33 == 0
   else true
 
-/-- one record through `PsbtIn.parse`'s dispatch -/
-def recordOkIn (ver : Nat) (r : Rec) : Bool :=
+
+/-- the tables one map kind is parsed and serialized by -/
+structure Spec where
+  order : List Nat              -- emission order of the field types; 256 = the `unknown` records
+  whole : List Nat              -- whole-value fields (key = the type byte alone)
+  keyed : List Nat              -- key-data fields
+  v2 : List Nat                 -- refused when parsing at version 0
+  v0only : List Nat             -- refused when parsing at version 2
+  presentIfNotNone : List Nat   -- written whenever present, whatever the value
+  objects : List Nat            -- decode to objects that are never falsy (transactions, outputs)
+  emptyIs : List (Nat × Bytes)  -- fields whose falsy value is not the empty octet string
+  finals : List Nat             -- a truthy value here makes the map "finalized"
+  droppedOnceFinal : List Nat
+  valueOk : Nat → Bytes → Bool
+
+namespace Spec
+variable (s : Spec)
+
+def known (ty : Nat) : Bool := s.whole.contains ty || s.keyed.contains ty
+/-- class of a key: its type byte when the parser knows it, 256 (`unknown`) otherwise -/
+def cls (k : Bytes) : Nat := if s.known (tyOf k) then tyOf k else 256
+/-- position in the emission order -/
+def rank (k : Bytes) : Nat := s.order.idxOf (s.cls k)
+
+/-- one record through the dispatch of `parse` -/
+def recordOk (ver : Nat) (r : Rec) : Bool :=
   let ty := tyOf r.1
-  if ver = 0 && Gen.Wire.PSBT_IN_V2.contains ty then false
-  else if Gen.Wire.PSBT_IN_WHOLE.contains ty then (keyData r.1).isEmpty && valueOkIn ty r.2
-  else if Gen.Wire.PSBT_IN_KEYED.contains ty then valueOkIn ty r.2
+  if ver = 0 && s.v2.contains ty then false
+  else if ver != 0 && s.v0only.contains ty then false
+  else if s.whole.contains ty then (keyData r.1).isEmpty && s.valueOk ty r.2
+  else if s.keyed.contains ty then s.valueOk ty r.2
   else true
 
 /-- `not value` for the value a whole-value field decodes to -/
-def falsyIn (ty : Nat) (v : Bytes) : Bool :=
-  if Gen.Wire.PSBT_IN_PRESENT_IF_NOT_NONE.contains ty then false
-  else if ty = Gen.Wire.PSBT_IN_NON_WITNESS_UTXO ∨ ty = Gen.Wire.PSBT_IN_WITNESS_UTXO then false
-  else if ty = Gen.Wire.PSBT_IN_FINAL_SCRIPTWITNESS then v == [0]
-  else v.isEmpty
+def falsy (ty : Nat) (v : Bytes) : Bool :=
+  if s.presentIfNotNone.contains ty || s.objects.contains ty then false
+  else match s.emptyIs.lookup ty with
+    | some e => v == e
+    | none => v.isEmpty
 
-def isWholeRec (r : Rec) : Bool := Gen.Wire.PSBT_IN_WHOLE.contains (tyOf r.1) && (keyData r.1).isEmpty
-
-/-- a truthy final scriptSig or final witness -/
 def finalRec (r : Rec) : Bool :=
-  isWholeRec r && (tyOf r.1 == Gen.Wire.PSBT_IN_FINAL_SCRIPTSIG || tyOf r.1 == Gen.Wire.PSBT_IN_FINAL_SCRIPTWITNESS)
-    && !falsyIn (tyOf r.1) r.2
-def finalized (recs : List Rec) : Bool := recs.any finalRec
+  s.finals.contains (tyOf r.1) && s.whole.contains (tyOf r.1) && !s.falsy (tyOf r.1) r.2
+def finalized (recs : List Rec) : Bool := recs.any s.finalRec
 
-def knownTy (k : Bytes) : Bool :=
-  Gen.Wire.PSBT_IN_WHOLE.contains (tyOf k) || Gen.Wire.PSBT_IN_KEYED.contains (tyOf k)
+/-- the record is one `serialize` does not write back -/
+def dropped (fin : Bool) (r : Rec) : Bool :=
+  (s.whole.contains (tyOf r.1) && s.falsy (tyOf r.1) r.2)
+    || (fin && s.known (tyOf r.1) && s.droppedOnceFinal.contains (tyOf r.1))
 
-/-- the record is one `PsbtIn.serialize` does not write back -/
-def droppedIn (fin : Bool) (r : Rec) : Bool :=
-  (isWholeRec r && falsyIn (tyOf r.1) r.2)
-    || (fin && knownTy r.1 && Gen.Wire.PSBT_IN_DROPPED_ONCE_FINALIZED.contains (tyOf r.1))
+def kept (recs : List Rec) : List Rec := recs.filter (fun r => !s.dropped (s.finalized recs) r)
 
-def keptIn (recs : List Rec) : List Rec := recs.filter (fun r => !droppedIn (finalized recs) r)
+end Spec
 
-/-- `PsbtIn.parse(b, psbt_version=ver).serialize(psbt_version=ver)` on octets -/
-def reserIn (ver : Nat) (b : Bytes) : Except Err Bytes :=
+/-- the typed object: the fields `parse` fills -/
+structure Typed where
+  whole : List (Nat × Bytes)            -- field type ↦ value
+  keyed : List (Nat × Bytes × Bytes)    -- field type ↦ {key data ↦ value}
+  unknown : List Rec
+  deriving Repr
+
+/-- the dispatch loop of `parse` -/
+def fromRecs (s : Spec) (recs : List Rec) : Typed where
+  whole := (recs.filter (fun r => s.whole.contains (tyOf r.1))).map (fun r => (tyOf r.1, r.2))
+  keyed := (recs.filter (fun r => !s.whole.contains (tyOf r.1) && s.keyed.contains (tyOf r.1))).map
+    (fun r => (tyOf r.1, keyData r.1, r.2))
+  unknown := recs.filter (fun r => !s.known (tyOf r.1))
+
+/-- `bool(self.final_script_sig or self.final_script_witness)` -/
+def Typed.finalized (s : Spec) (t : Typed) : Bool :=
+  t.whole.any (fun e => s.finals.contains e.1 && !s.falsy e.1 e.2)
+
+/-- `sorted(d.items())` -/
+def sortKeys (l : List Rec) : List Rec := l.mergeSort (fun a b => bytesLe a.1 b.1)
+
+/-- one turn of the loop of `serialize` -/
+def emit (s : Spec) (t : Typed) (fin : Bool) (ty : Nat) : List Rec :=
+  if ty = 256 then sortKeys t.unknown
+  else if fin && s.droppedOnceFinal.contains ty then []
+  else if s.whole.contains ty then
+    (t.whole.filter (fun e => e.1 == ty && !s.falsy ty e.2)).map (fun e => ([UInt8.ofNat ty], e.2))
+  else sortKeys ((t.keyed.filter (fun e => e.1 == ty)).map (fun e => (UInt8.ofNat ty :: e.2.1, e.2.2)))
+
+/-- `serialize` -/
+def toRecs (s : Spec) (t : Typed) : List Rec := s.order.flatMap (emit s t (t.finalized s))
+
+/-- `X.parse(b, psbt_version=ver).serialize(psbt_version=ver)` on the octets of one map -/
+def reser (s : Spec) (ver : Nat) (b : Bytes) : Except Err Bytes :=
   match parseMap b with
   | .error e => .error e
   | .ok (recs, rest) =>
     if !rest.isEmpty then .error .trailing
-    else if recs.all (recordOkIn ver) then .ok (serMap (sortRecs inRank (keptIn recs)))
+    else if recs.all (s.recordOk ver) then .ok (serMap (toRecs s (fromRecs s recs)))
     else .error .invalid
 
-def runReserIn (ver : Nat) (b : Bytes) : String :=
-  match reserIn ver b with
+def runReser (s : Spec) (ver : Nat) (b : Bytes) : String :=
+  match reser s ver b with
   | .error _ => "err refused"
   | .ok out => s!"ok {toHex out}"
 
+-- ------------------------------------------------------------------ input maps (tables generated)
+def specIn : Spec where
+  order := Gen.Wire.PSBT_IN_ORDER
+  whole := Gen.Wire.PSBT_IN_WHOLE
+  keyed := Gen.Wire.PSBT_IN_KEYED
+  v2 := Gen.Wire.PSBT_IN_V2
+  v0only := []
+  presentIfNotNone := Gen.Wire.PSBT_IN_PRESENT_IF_NOT_NONE
+  objects := [Gen.Wire.PSBT_IN_NON_WITNESS_UTXO, Gen.Wire.PSBT_IN_WITNESS_UTXO]
+  emptyIs := [(Gen.Wire.PSBT_IN_FINAL_SCRIPTWITNESS, [0])]     -- the empty witness stack
+  finals := [Gen.Wire.PSBT_IN_FINAL_SCRIPTSIG, Gen.Wire.PSBT_IN_FINAL_SCRIPTWITNESS]
+  droppedOnceFinal := Gen.Wire.PSBT_IN_DROPPED_ONCE_FINALIZED
+  valueOk := valueOkIn
+
 -- ------------------------------------------------------------------ output maps (psbt/psbt_out.py)
-/- `PsbtOut.parse / serialize` are written out field by field (no tables to regenerate); the lists
-   below are read off that code and tied by the `psbtout.reser*` stream. -/
-def OUT_ORDER : List Nat := [0, 1, 2, 3, 4, 5, 6, 7, 8, 9, 10, 256]
-def OUT_WHOLE : List Nat := [0, 1, 3, 4, 5, 6, 9, 10]
-def OUT_KEYED : List Nat := [2, 7, 8]
-def OUT_V2 : List Nat := [3, 4, 9, 10]
-/-- `amount`, `sp_v0_label`: written whenever not None -/
-def OUT_PRESENT_IF_NOT_NONE : List Nat := [3, 10]
+/- `PsbtOut.parse / serialize` are written out field by field; their tables are read off the syntax
+   tree of those functions by `tools/specs/wire.py` (`Gen.Wire.PSBT_OUT_*`). -/
 
 /-- `parse_taproot_tree`: (depth, leaf version, var_bytes script)* up to the end of the value -/
 def tapTreeOk : Nat → Bytes → Bool
@@ -130,33 +197,78 @@ def valueOkOut (ty : Nat) (v : Bytes) : Bool :=
   else if ty = 8 then !v.isEmpty && v.length % 33 == 0
   else true
 
-def recordOkOut (ver : Nat) (r : Rec) : Bool :=
-  let ty := tyOf r.1
-  if ver = 0 && OUT_V2.contains ty then false
-  else if OUT_WHOLE.contains ty then (keyData r.1).isEmpty && valueOkOut ty r.2
-  else if OUT_KEYED.contains ty then valueOkOut ty r.2
+def specOut : Spec where
+  order := Gen.Wire.PSBT_OUT_ORDER
+  whole := Gen.Wire.PSBT_OUT_WHOLE
+  keyed := Gen.Wire.PSBT_OUT_KEYED
+  v2 := Gen.Wire.PSBT_OUT_V2
+  v0only := []
+  presentIfNotNone := Gen.Wire.PSBT_OUT_PRESENT_IF_NOT_NONE
+  objects := []
+  emptyIs := []
+  finals := []
+  droppedOnceFinal := []
+  valueOk := valueOkOut
+
+-- ------------------------------------------------------------------ global map (psbt/psbt.py)
+/-- `deserialize_count`: one canonical CompactSize and nothing else -/
+def countOk (v : Bytes) : Bool :=
+  match VarInt.parse v Gen.VarInt.MAX_SIZE with
+  | .ok (_, []) => true
+  | _ => false
+
+/-- the unsigned transaction of a version 0 psbt: `deserialize_tx(…, include_witness=False)` -/
+def unsignedTxOk (v : Bytes) : Bool :=
+  match tx.parseAll v with
+  | .ok t => !t.isSegwit
+  | .error _ => false
+
+def valueOkGlobal (ty : Nat) (v : Bytes) : Bool :=
+  if ty = Gen.Wire.PSBT_GLOBAL_UNSIGNED_TX then unsignedTxOk v
+  else if Gen.Wire.PSBT_GLOBAL_UINT32.contains ty then v.length = 4
+  else if Gen.Wire.PSBT_GLOBAL_COUNTS.contains ty then countOk v
+  else if ty = Gen.Wire.PSBT_GLOBAL_TX_MODIFIABLE then v.length = 1
+  else if ty = Gen.Wire.PSBT_GLOBAL_XPUB then keyOriginOk v
   else true
 
-def outRank (k : Bytes) : Nat := rankOf OUT_ORDER (OUT_ORDER.filter (· < 256)) k
+def specGlobal : Spec where
+  order := Gen.Wire.PSBT_GLOBAL_ORDER
+  whole := Gen.Wire.PSBT_GLOBAL_WHOLE
+  keyed := Gen.Wire.PSBT_GLOBAL_KEYED
+  v2 := Gen.Wire.PSBT_GLOBAL_V2
+  v0only := [Gen.Wire.PSBT_GLOBAL_UNSIGNED_TX]
+  presentIfNotNone := Gen.Wire.PSBT_GLOBAL_PRESENT_IF_NOT_NONE
+  objects := [Gen.Wire.PSBT_GLOBAL_UNSIGNED_TX]
+  emptyIs := [(Gen.Wire.PSBT_GLOBAL_VERSION, [0, 0, 0, 0])]   -- `if self.version:` — version 0 is not written
+  finals := []
+  droppedOnceFinal := []
+  valueOk := valueOkGlobal
 
-/-- a whole-value output field whose value is empty (and is not amount / label) is not written back -/
-def droppedOut (r : Rec) : Bool :=
-  OUT_WHOLE.contains (tyOf r.1) && (keyData r.1).isEmpty
-    && !OUT_PRESENT_IF_NOT_NONE.contains (tyOf r.1) && r.2.isEmpty
+/-- `_global_version`: the value of the version record, 0 when there is none -/
+def globalVersion (recs : List Rec) : Nat :=
+  match recs.find? (fun r => tyOf r.1 == Gen.Wire.PSBT_GLOBAL_VERSION) with
+  | some r => ofLE r.2
+  | none => 0
 
-def keptOut (recs : List Rec) : List Rec := recs.filter (fun r => !droppedOut r)
+def hasType (recs : List Rec) (ty : Nat) : Bool := recs.any (fun r => tyOf r.1 == ty)
 
-/-- `PsbtOut.parse(b, psbt_version=ver).serialize(psbt_version=ver)` on octets -/
-def reserOut (ver : Nat) (b : Bytes) : Except Err Bytes :=
+/-- `_settle_globals`: what each version requires -/
+def requiredOk (ver : Nat) (recs : List Rec) : Bool :=
+  if ver = 0 then hasType recs Gen.Wire.PSBT_GLOBAL_UNSIGNED_TX
+  else Gen.Wire.PSBT_GLOBAL_REQUIRED_V2.all (hasType recs)
+
+/-- the global map through `Psbt.parse` / `Psbt.serialize` -/
+def reserGlobal (b : Bytes) : Except Err Bytes :=
   match parseMap b with
   | .error e => .error e
-  | .ok (recs, rest) =>
-    if !rest.isEmpty then .error .trailing
-    else if recs.all (recordOkOut ver) then .ok (serMap (sortRecs outRank (keptOut recs)))
-    else .error .invalid
+  | .ok (recs, _) =>
+    let ver := globalVersion recs
+    if ver != 0 && ver != 2 then .error .invalid
+    else if !requiredOk ver recs then .error .invalid
+    else reser specGlobal ver b
 
-def runReserOut (ver : Nat) (b : Bytes) : String :=
-  match reserOut ver b with
+def runReserGlobal (b : Bytes) : String :=
+  match reserGlobal b with
   | .error _ => "err refused"
   | .ok out => s!"ok {toHex out}"
 
